@@ -80,6 +80,13 @@ def jobs(tier, seed):
         for events in (['apply', 'hold', 'enter'], ['apply', 'enter', 'hold', 'leave'], ['apply', 'hold', 'setreg'], ['hold', 'enter'], ['enter', 'hold', 'leave'],
                        ['apply', 'hold', 'enter', 'leave'], ['flatten', 'hold', 'enter'], ['hold', 'setreg', 'enter']):
             out.append({'prog': prog, 'events': events, 'final': 'held', 'name': 'times re-read through kept operation objects after a duration setting changed'})
+    unset = {'steps': [{'k': ['R', 0, 'ALL', 'unset'], 'rel': None}, {'k': ['W', 0, 'ALL'], 'rel': None}, {'k': ['W', 1, 'ALL'], 'rel': ['E', 0]}]}
+    unset_sub = {'steps': [{'k': ['W', 0, 'ALL'], 'rel': None}, {'k': ['S', {'steps': [{'k': ['R', 0, 'ALL', 'unset'], 'rel': None}, {'k': ['W', 0, 'ALL'], 'rel': None}]}], 'rel': None},
+                           {'k': ['W', 0, 'ALL'], 'rel': None}]}
+    for prog in (unset, unset_sub):
+        for events in (['times', 'setreg'], ['dur', 'setreg'], ['hold', 'setreg'], ['times', 'setreg', 'setreg'], ['plot', 'setreg'], ['setreg']):
+            for final in ('duration_only', 'retained', 'held', 'times'):
+                out.append({'prog': prog, 'events': events, 'final': final, 'name': 'a registry key is assigned for the first time after times were read'})
     meas_block = {'steps': [{'k': ['S', {'steps': [{'k': ['M', 1, 'a'], 'rel': None}, {'k': ['W', 0, 'ALL'], 'rel': None}], 'rep': 2}], 'rel': None}, {'k': ['M', 1, 'a'], 'rel': None}]}
     for events in (['acq', 'apply'], ['ops', 'acq', 'apply'], ['stim', 'apply'], ['acq', 'add', 'apply']):
         for final in ('times', 'stim'):
